@@ -100,21 +100,23 @@ def lean_build(targets: list[str], clean: bool = False) -> tuple[bool, str]:
     return rc == 0, (out + err)
 
 
-def lean_driver(lines: list[str], timeout=3000) -> list[str]:
-    """Pipe request lines through the model driver; one response line per request."""
-    global _DRIVER_BUILT
-    if _DRIVER_BUILT is None:
-        _DRIVER_BUILT = lean_build(['BearVerif'])  # driver imports must be compiled (once per process)
-    ok, log = _DRIVER_BUILT
-    rc, out, err = run(['lake', 'env', 'lean', '--run', 'Main.lean'], cwd=LEAN,
+def lean_driver(lines: list[str], pid: str, timeout=3000) -> list[str]:
+    """Pipe request lines through the model driver of property `pid`
+    (lean/Main<pid>.lean, importing BearVerif.Driver.<pid>); one response line per request."""
+    if pid not in _DRIVER_BUILT:
+        _DRIVER_BUILT[pid] = lean_build([f'BearVerif.Driver.{pid}', 'BearVerif.Core.Loop'])  # once per process
+    ok, log = _DRIVER_BUILT[pid]
+    if not ok:
+        raise DriverError(f'driver of {pid} does not build: {log[-3000:]}')
+    rc, out, err = run(['lake', 'env', 'lean', '--run', f'Main{pid}.lean'], cwd=LEAN,
                        input='\n'.join(lines) + '\n', timeout=timeout)
     res = out.splitlines()
     if rc != 0 or len(res) != len(lines):
-        raise DriverError(f'driver rc={rc} lines={len(res)}/{len(lines)} stderr={err[-2000:]} log={log[-2000:] if not ok else ""}')
+        raise DriverError(f'driver rc={rc} lines={len(res)}/{len(lines)} stderr={err[-2000:]}')
     return res
 
 
-_DRIVER_BUILT = None
+_DRIVER_BUILT: dict = {}
 
 
 class DriverError(Exception):
